@@ -346,7 +346,11 @@ func (w *verifLbcWorld) apply(m string) string {
 	case 'k':
 		deliver(nsi.secretLister, createSecretHandlers(w.lbc), "d/"+id, verifLbcSecret(id, f[1], ver(f[2])))
 	case 'p':
-		deliver(nsi.policyLister, createPolicyHandlers(w.lbc), "d/"+id, verifLbcPolicy(id, f[1], f[2], ver(f[3])))
+		pol := verifLbcPolicy(id, f[1], f[2], ver(f[3]))
+		if c := opts["cls"]; c != "" {
+			pol.Spec.IngressClass = c // a Policy that names another controller's class is dropped by the generation
+		}
+		deliver(nsi.policyLister, createPolicyHandlers(w.lbc), "d/"+id, pol)
 	case 'c':
 		cm := &api_v1.ConfigMap{ObjectMeta: metav1.ObjectMeta{Namespace: "nginx-ingress", Name: "nginx-config"},
 			Data: map[string]string{"worker-connections": strconv.Itoa(1024 + ver(f[1]))}}
